@@ -23,6 +23,7 @@ def check(chk, thorough=False):
     chk.run('C18.d', 'R-SCHEMA', 'the idle predicate is the conjunction of both message buffers being empty and no transfer queued, active or awaiting ACK', lambda ob: c18d(tree, ob), floor=7)
     chk.run('C18.d2', 'R-GUARD', 'the post-termination close decision uses the full idle predicate (transfers included), not just the octet buffers', lambda ob: close_check(tree, ob), floor=1)
     chk.run('C18.g', 'R-FRESH', 'transfer maps and queues belong to their session / agent object (created per instance, no shared default objects) (= C01.g, first part)', lambda ob: (__import__('sa.props.common', fromlist=['per_instance_state', 'fresh_defaults']).per_instance_state(tree, ob, 'tcpcl/session.py', ('Connection', 'Messenger', 'ContactHandler')), __import__('sa.props.common', fromlist=['per_instance_state', 'fresh_defaults']).per_instance_state(tree, ob, 'tcpcl/agent.py', ('Agent',)), __import__('sa.props.common', fromlist=['per_instance_state', 'fresh_defaults']).per_instance_state(tree, ob, 'udpcl/agent.py', ('Agent',)), __import__('sa.props.common', fromlist=['per_instance_state', 'fresh_defaults']).fresh_defaults(tree, ob, ['tcpcl/session.py', 'tcpcl/agent.py', 'tcpcl/config.py'])), floor=3)
+    chk.run('C18.h', 'R-FLOW', 'popping returns exactly the announced bundle: a bundle is cut out of its datagram at its own item boundaries (= C13.e)', lambda ob: __import__('sa.props.c13', fromlist=['c13e']).c13e(tree, ob), floor=5)
     chk.run('C18.f', 'R-GUARD', 'a started transfer still completes (and gets its finished signal) while terminating (= C09.h); received UDPCL items get local ids (= C13.g)', lambda ob: _c18f(tree, ob), floor=3)
     chk.run('C18.e', 'R-SCHEMA', 'BP-side subscribers name existing signals with matching arity and pop only successful transfers', lambda ob: c18e(tree, ob), floor=6)
 
@@ -159,10 +160,36 @@ def _item_defaults(tree, ob):
                        'cannot be emitted (signature element \'t\'), the transfer never gets its finished signal and the session never turns idle', st)
 
 
+def _length_width(tree, ob):
+    ''' transfer and acknowledged lengths are 64-bit quantities on the wire (XFER_SEGMENT / XFER_ACK length fields, the Transfer
+    Length extension); a signal that declares its length element narrower ('u', 'i', 'q' ...) cannot be emitted for a large
+    transfer: OverflowError on emission, the progress or finished signal is lost. '''
+    n = 0
+    for (rel, clsname) in CLASSES:
+        sigs, _m = collect(tree, rel, clsname)
+        for (r, cnode) in tree.mro(rel, clsname):
+            for item in cnode.body:
+                if isinstance(item, ast.FunctionDef) and item.name in sigs:
+                    params = [a.arg for a in item.args.args][1:]
+                    elems = split_signature(sigs[item.name][0])
+                    if len(params) != len(elems):
+                        continue
+                    for (pn, el) in zip(params, elems):
+                        if pn in ('length', 'total_length', 'ack_length'):
+                            n += 1
+                            if el in ('t', 'x', 'v'):
+                                ob.site(r, item, '{}.{}: {} travels as {!r}'.format(cnode.name, item.name, pn, el))
+                            else:
+                                ob.violate(r, '{}.{}'.format(cnode.name, item.name), "signature {!r}: {} as {!r}".format(sigs[item.name][0], pn, el), 'a transfer length is declared narrower than 64 bits: '
+                                           'a length of 2**32 or more raises OverflowError when the signal is emitted, the transfer never gets that signal', item)
+    ob.require(n >= 5, 'length elements of signals: {}'.format(n))
+
+
 def c18a(tree, ob):
     _int_ranges(tree, ob)
     _variant_ints(tree, ob)
     _item_defaults(tree, ob)
+    _length_width(tree, ob)
     for (rel, clsname) in CLASSES:
         sigs, _m = collect(tree, rel, clsname)
         ob.require(sigs, 'no signals found on ' + clsname)
@@ -416,6 +443,21 @@ def c18c(tree, ob):
         ob.site(UAGENT, f, 'UDPCL queue then announce the same id')
 
 
+def _success_only_when_awaited(tree, ob):
+    ''' "a started transfer never gets more than one finished signal": the final XFER_ACK finishes a transfer only while it
+    is in the awaiting-acknowledgement set -- it entered it when its END segment went out and leaves it here.  Tested
+    against any other set (not yet started, ...) an END acknowledgement that arrives early finishes a transfer that is
+    still being sent, which is finished again when it ends. '''
+    fv = FuncView(tree, SESS, 'ContactHandler.recv_xfer_ack')
+    fins = [c for c in method_calls(fv.func, 'send_bundle_finished', 'self') if len(c.args) >= 3 and const_str(c.args[2]) == 'success']
+    f = one(fins, "send_bundle_finished(..., 'success') in recv_xfer_ack", ob)
+    if fv.has(f, 'item in self._tx_pend_ack', True) or fv.has(f, 'item not in self._tx_pend_ack', False):
+        ob.site(SESS, f, "'success' only for a transfer awaiting its acknowledgement")
+    else:
+        ob.violate(SESS, fv.qual, src(f)[:70], "the final acknowledgement finishes a transfer that is not known to await it (the test is made against another set): an END acknowledgement arriving while "
+                   'the transfer is still being sent gives it a finished signal now and another one later', f)
+
+
 def _pend_ack_growth(tree, ob):
     ''' "it becomes true once all of that has drained": what the idle predicate waits for must be able to drain.  A transfer
     enters the awaiting-acknowledgement set only when its END segment has just been sent (the final XFER_ACK will take it
@@ -438,6 +480,7 @@ def _pend_ack_growth(tree, ob):
 
 def c18d(tree, ob):
     _pend_ack_growth(tree, ob)
+    _success_only_when_awaited(tree, ob)
     fv = FuncView(tree, SESS, 'ContactHandler.is_sess_idle')
     rets = [r for r in walk_local(fv.func) if isinstance(r, ast.Return)]
     r = one(rets, 'return in ContactHandler.is_sess_idle', ob)
